@@ -1,4 +1,6 @@
 import Ntrip.Properties.C11
+import Ntrip.Guards.Apps_reader
+import Ntrip.Guards.Apps_fanout
 import Ntrip.Generated.Consts
 import Ntrip.Generated.Layouts
 import Ntrip.Generated.Skeletons
@@ -38,5 +40,16 @@ theorem tie_guards_filter : type_of% Ntrip.Guards.filter := Ntrip.Guards.filter
 
 /-- Tie T1 (guards): displayrtcm3. -/
 theorem tie_guards_display : type_of% Ntrip.Guards.display := Ntrip.Guards.display
+
+/-- Tie T1 (guards): the read loop the application's input goes through (`file_handler.Handle`):
+    its conditions and loops are those of the reader model. -/
+theorem tie_guards_reader : type_of% Ntrip.Guards.reader := Ntrip.Guards.reader
+
+/-- Tie T1 (guards): the fan-out (`appcore.HandleMessagesUntilEOF`) between the reader and the writers. -/
+theorem tie_guards_fanout : type_of% Ntrip.Guards.fanout := Ntrip.Guards.fanout
+
+/-- Tie T1: what `Handle` hands over — single bytes by value, from the read loop itself. -/
+theorem tie_reader_handover :
+    Gen.sent_fh_Handler_Handle = some ["go handler.RTCMHandler.HandleMessages()", "byteChan <- buf[0]"] := by decide
 
 end Ntrip.C11
